@@ -186,7 +186,21 @@ func init() {
 				if !ok {
 					panic(pathAbort{"unsupported: json.Unmarshal destination"})
 				}
-				*p = fromGo(out)
+				res := fromGo(out)
+				if pt, ok := dst.t.Underlying().(*types.Pointer); ok {
+					if _, isIface := pt.Elem().Underlying().(*types.Interface); !isIface {
+						// destination is a concrete map / slice / scalar variable
+						rf, _ := res.(iface)
+						if rf.t == nil {
+							res = zero(pt.Elem())
+						} else if types.Identical(rf.t.Underlying(), pt.Elem().Underlying()) {
+							res = rf.v
+						} else {
+							panic(pathAbort{"unsupported: json.Unmarshal into " + pt.Elem().String()})
+						}
+					}
+				}
+				*p = res
 			}
 			return i.mkError(fr, err), true
 		},
